@@ -42,9 +42,28 @@ class _Stop(Exception):
     pass
 
 
+def import_vela():
+    """`ethosu.vela.vela`; configuration resolution never touches the C codec, so a tree without a built
+    `ethosu.mlw_codec` gets an empty stand-in instead of a C build"""
+    try:
+        from ethosu import mlw_codec  # noqa: F401
+    except ImportError:
+        import sys
+        import types
+
+        import ethosu
+
+        stub = types.ModuleType("ethosu.mlw_codec")
+        sys.modules["ethosu.mlw_codec"] = stub
+        ethosu.mlw_codec = stub
+    from ethosu.vela import vela
+
+    return vela
+
+
 def grab_parser():
     """the argparse parser `vela.main` builds (it is local to main, so intercept parse_args)"""
-    from ethosu.vela import vela
+    vela = import_vela()
 
     box = {}
     orig = argparse.ArgumentParser.parse_args
@@ -144,6 +163,7 @@ def probe_legal():
 
 
 def emit(repo):
+    import_vela()
     from ethosu.vela.architecture_features import Accelerator, ArchitectureFeatures, MemPort, create_default_arch
     from ethosu.vela.tensor import MemArea
 
